@@ -27,7 +27,10 @@ Net == Flatten2([n \in 1..(IF Thorough THEN 3 ELSE 2) |-> Flatten2([f \in 1..2 |
 (* the prediction is g(x) + x with x used twice: the prediction's gradient object is handed through Add to x, which then *)
 (* receives a second contribution - the prediction's own gradient must not move                                          *)
 Fan == [i \in DOMAIN LossDims |-> <<"fan", LossDims[i][1], LossDims[i][2]>>]
-Descs == MyCases(Leaf \o Chain \o Fan \o Net)
+(* a target computed AFTER an earlier back-propagation from a tensor that took part in it, then made a plain leaf by     *)
+(* ResetGradContext(false): the loss of a fresh tracked prediction against it back-propagates like any other            *)
+Retarget == [i \in DOMAIN LossDims |-> <<"retarget", LossDims[i][1], LossDims[i][2]>>]
+Descs == MyCases(Leaf \o Chain \o Fan \o Retarget \o Net)
 
 PDom(loss) == IF loss = "mse" THEN "any,prob01" ELSE "prob01,unit,prob01in,nearbound"     \* nearbound: one ulp / a few ppm off a clipping bound, on either side
 Build(d) ==
@@ -40,6 +43,16 @@ Build(d) ==
     [] d[1] = "fan" ->
          MkCase("c13", d[2] \o "-fan", <<In("x", d[3], TRUE), In("t", d[3], FALSE)>>, <<"q01", "targ01">>,
                 <<Ins("scale", [k |-> Half], <<1>>), Ins("add", NoPar, <<3, 1>>), Ins(d[2], NoPar, <<4, 2>>)>>, <<4, 5>>, 5, FALSE)
+    [] d[1] = "retarget" ->
+         LET ins == <<In("p", d[3], TRUE), In("t", d[3], FALSE), In("q", d[3], TRUE)>>
+             code == <<Ins(d[2], NoPar, <<1, 2>>)>>
+             (* the program of the second epoch as a function of the inputs (the reset does not touch values) *)
+             code2 == <<Ins(d[2], NoPar, <<1, 2>>), Ins("scale", [k |-> Half], <<1>>), Ins(d[2], NoPar, <<3, 5>>)>>
+         IN MkCase("c13", d[2] \o "-retarget", ins, <<PDom(d[2]), "targ01", PDom(d[2])>>, code, <<4>>, 4, FALSE)
+            @@ [post |-> <<EncIns(Ins("scale", [k |-> Half], <<1>>)), EncIns(Ins("detach", NoPar, <<5>>)), EncIns(Ins(d[2], NoPar, <<3, 6>>)),
+                           EncIns(Ins("bp", NoPar, <<7>>))>>,
+                postgrads |-> <<[node |-> 3, dims |-> d[3], data |-> EncSeq(GradDef(ins, code2, 6, 3))],
+                                [node |-> 1, dims |-> d[3], data |-> EncSeq(GradDef(ins, code, 4, 1))]>>]
     [] d[1] = "net-bce" ->
          MkCaseD("c13", "fc-sigmoid-bce", <<In("w", <<1>>, TRUE), In("b", <<1>>, TRUE), In("x", <<d[2], d[3]>>, TRUE), In("t", <<d[2]>>, FALSE)>>,
                  <<"small", "small", "small", "targ01">>,
